@@ -202,6 +202,26 @@ class Run(RunBase):
         if dangling(self.m.a):
             raise HarnessError(f"generated network is not well formed: {dangling(self.m.a)[:3]}")
         self.last = "start"
+        self.shadow = None  # (scenario, model) of the sibling: the source of a cut-out, or the original of a copy
+
+    def _swap(self):
+        cur = (self.sc, self.m)
+        self.sc, self.m = self.shadow
+        self.shadow = cur
+
+    def _check_shadow(self):
+        """A cut-out (or copy) and its source are independent networks: operating on one must leave the other
+        exactly as it was."""
+        if self.shadow is None:
+            return
+        sc, m = self.shadow
+        got = sut_abstract(sc.lanelet_network)
+        d = dangling(got)
+        diff = first_diff(got, m.a)
+        if d or diff:
+            raise Violation(f"C10/sibling-affected/{self.last}",
+                            f"after {self.last} on one network, the OTHER network (source of the cut-out / original of "
+                            f"the copy) changed: {diff or d[:3]}")
 
     @property
     def net(self):
@@ -218,6 +238,8 @@ class Run(RunBase):
             return op.get("lanelet") is None or op["lanelet"] in a["L"]
         if k == "cut_list":
             return len(op["ids"]) > 0 and all(i in a["L"] for i in op["ids"])
+        if k == "swap":
+            return self.shadow is not None
         return k in ("restart", "check")
 
     # ------------------------------------------------------------------ invariants
@@ -253,12 +275,19 @@ class Run(RunBase):
 
     def apply(self, op):
         out = getattr(self, "_op_" + op["op"])(op)
+        if op["op"] != "swap":
+            self._check_shadow()
         a = self.m.a
         self.note_state([sorted(a["L"]), sorted(a["S"]), sorted(a["T"]), sorted(a["I"])])
         return out
 
     def _op_check(self, op):
         self._check(op)
+        return "ok"
+
+    def _op_swap(self, op):
+        self._swap()
+        self.probe("continued-on-the-other-network")
         return "ok"
 
     def _probe_removal(self, kind, ids):
@@ -408,6 +437,9 @@ class Run(RunBase):
         if excl and keep != set(self.m.a["L"]):
             self.probe("cut-out-by-type-partial")
         self._probe_removal("lanelet", sorted(set(self.m.a["L"]) - keep))
+        if op.get("keep_source", True):
+            self.shadow = (self.sc, self.m.clone())
+            self.probe("cut-out-keeps-source-alive")
         self.m.restrict(keep)
         self.sc = _new_scenario()
         self.sc.add_objects(new)
@@ -423,6 +455,9 @@ class Run(RunBase):
         except Exception as e:  # noqa
             raise Violation(f"C10/cut-out-raised/{self.last}", f"{self.last} raised {type(e).__name__}: {e}")
         self._probe_removal("lanelet", sorted(set(self.m.a["L"]) - set(op["ids"])))
+        if op.get("keep_source", True):
+            self.shadow = (self.sc, self.m.clone())
+            self.probe("cut-out-keeps-source-alive")
         self.m.restrict(set(op["ids"]), keep_signs_lights=False)
         self.m.a["I"] = {}
         self.sc = _new_scenario()
@@ -433,7 +468,9 @@ class Run(RunBase):
     def _op_restart(self, op):
         self.faults["F-restart"] += 1
         self.probe("restart-" + op["how"])
-        self.last = self.last + "+restart"
+        self.last = self.last.split("+")[0] + "+restart"
+        if op.get("keep"):
+            self.shadow = (self.sc, self.m.clone())
         if op["how"] == "pickle":
             self.sc = pickle.loads(pickle.dumps(self.sc))
         else:
@@ -468,6 +505,9 @@ def _cutter(rng, run, cfg):
     while True:
         a = run.m.a
         ids = sorted(a["L"])
+        if run.shadow is not None and rng.chance(0.3):
+            yield {"op": "swap"}
+            continue
         if not ids:
             yield None
             continue
@@ -488,7 +528,10 @@ def _cutter(rng, run, cfg):
 
 def _restarter(rng, run, cfg):
     while True:
-        yield {"op": "restart", "how": rng.pick(["pickle", "deepcopy"])}
+        if run.shadow is not None and rng.chance(0.5):
+            yield {"op": "swap"}
+        else:
+            yield {"op": "restart", "how": rng.pick(["pickle", "deepcopy"]), "keep": rng.chance(0.5)}
 
 
 class C10(Property):
@@ -498,7 +541,8 @@ class C10(Property):
     expected_probes = ["removed-lanelet-was-pred-or-succ-of-survivor", "removed-lanelet-was-adjacent-to-survivor",
                        "intersection-spans-removed-and-kept-lanelets", "stop-line-reference-cleaned",
                        "exclusive-sign-or-light-removed-with-lanelet", "shared-sign-or-light-kept",
-                       "cut-out-by-shape-partial", "cut-out-by-type-partial", "restart-pickle", "restart-deepcopy"]
+                       "cut-out-by-shape-partial", "cut-out-by-type-partial", "restart-pickle", "restart-deepcopy",
+                       "cut-out-keeps-source-alive", "continued-on-the-other-network"]
     assumptions = [
         "networks are well formed: every reference names an existing element and a stop line refers only to signs and "
         "lights its lanelet also references (checked on every generated universe)",
